@@ -402,6 +402,8 @@ func checkC02(r *core.Run) {
 	ruleL1(r)
 	ruleL2(r)
 	ruleL2Couple(r)
+	r.Rule("L2-addr: PaymentAddress.Address (decoded with MustAccAddressFromBech32 on the end-blocker's refund path) is stored only under Network == cosmos AND Chain == this chain")
+	rulePayAddrBech32(r)
 	r.Rule("L2-nilarg: a parameter that is the constant nil at a call site in block-hook scope is tested != nil before being handed to a dependency call")
 	ruleL2NilArg(r)
 	// the subtrahend of the end-block subtraction TotalShardPledged.Sub(shard.Pledge) (ShardRelease, reached from
@@ -715,4 +717,56 @@ func pkgPathOf(f *ssa.Function) string {
 		return f.Object().Pkg().Path()
 	}
 	return ""
+}
+
+// rulePayAddrBech32 (L2-addr): GetCosmosPaymentAddress calls
+// sdk.MustAccAddressFromBech32 on the stored PaymentAddress.Address, and it is
+// reached from the x/sao end-blocker (refund of a timed-out order). The stored
+// string is therefore written only where the account id it comes from was
+// tested to be an account of the cosmos namespace on this chain (a bech32
+// address): every store to PaymentAddress.Address in the did handlers is
+// dominated by Network == "cosmos" AND Chain == ctx.ChainID(). This replaces
+// the blanket assumption A-addr for that field.
+func rulePayAddrBech32(r *core.Run) {
+	const id = "L2-addr"
+	n := 0
+	for _, fnName := range []string{"did/keeper.msgServer.Binding", "did/keeper.msgServer.UpdatePaymentAddress"} {
+		fn := r.Func(id, fnName)
+		if fn == nil {
+			continue
+		}
+		res := r.Resolver(fn)
+		ck := &guard.Checker{P: r.P, Fn: fn, Res: res}
+		cnt := 0
+		for _, b := range fn.Blocks {
+			for _, ins := range b.Instrs {
+				st, ok := ins.(*ssa.Store)
+				if !ok {
+					continue
+				}
+				fa, ok := st.Addr.(*ssa.FieldAddr)
+				if !ok || fieldPath(fa) != "did/types.PaymentAddress.Address" {
+					continue
+				}
+				n++
+				cnt++
+				for _, cl := range []struct {
+					name string
+					atom guard.Atom
+				}{
+					{"cosmos-namespace", guard.Eq("did/keeper.parseAcccountId(*)#0.Network", "\"cosmos\"")},
+					{"this-chain", guard.Eq("did/keeper.parseAcccountId(*)#0.Chain", "sdk.Context.ChainID()")},
+				} {
+					key := core.Key(id, fnName, fmt.Sprintf("PaymentAddress.Address#%d", cnt), cl.name)
+					ok2, w := ck.MustPass(b, []guard.Atom{cl.atom})
+					if ok2 {
+						r.Discharge(id, key, r.P.Pos(st.Pos()), "the stored payment address comes from an account id tested for "+cl.atom.Desc)
+					} else {
+						r.Violate(id, key, r.P.Pos(st.Pos()), fmt.Sprintf("%s stores a payment address without establishing %s: an address of another namespace (e.g. eip155 0x…) can be stored, and GetCosmosPaymentAddress — reached from the x/sao end-blocker when a timed-out order is refunded — calls MustAccAddressFromBech32 on it: panic outside recovery, chain halt", fnName, cl.atom.Desc), append([]string{"path (branch decisions):"}, w...)...)
+					}
+				}
+			}
+		}
+	}
+	r.Floor("payment_address_stores", n, 3)
 }
